@@ -90,7 +90,7 @@ fn shared_map_strategy() -> BoxedStrategy<Case> {
   (crate::gen::text(true, 8), crate::gen::abs_map(cfg), 0u8..SETTERS.len() as u8, 0u8..4u8, vec(0u8..OBS.len() as u8, 0..=3))
     .prop_map(move |(text, am, setter, wrap, hx)| {
       let map = crate::gen::concretize_map(&text, &am, true);
-      Case { shared_map: Some((setter, wrap)), x: Spec::Sms { text, name: "g.js".into(), map }, edit: None, hx, hy: vec![], observed_build: None }
+      Case { shared_map: Some((setter, wrap)), x: Spec::Sms { text, name: "g.js".into(), map, full: None }, edit: None, hx, hy: vec![], observed_build: None }
     })
     .boxed()
 }
@@ -102,7 +102,7 @@ fn shared_pair(case: &Case, setter: u8, wrap: u8) -> Option<(BoxSource, BoxSourc
 
 pub fn shared_pair_of(x: &Spec, setter: u8, wrap: u8) -> Option<(BoxSource, BoxSource, bool)> {
   use rspack_sources::{CachedSource, ConcatSource, RawSource, ReplaceSource, SourceExt, SourceMapSource, WithoutOriginalOptions};
-  let Spec::Sms { text, name, map } = x else { return None };
+  let Spec::Sms { text, name, map, .. } = x else { return None };
   let m1 = crate::build::source_map(map);
   let mut m2 = m1.clone();
   let changed = match SETTERS[setter as usize] {
